@@ -252,6 +252,62 @@ def sequence_grammar(rng, derive=True):
     return items
 
 
+def context_grammar(rng, derive=True):
+    """One recursive core nonterminal E used in two to four *contexts* (bare, bracketed by different terminals,
+    followed by different terminals), with left-/postfix-recursive rules in which E occurs several times
+    (`E -> E E Op`, `E -> E Op`, `E -> E E E Op`): kernels hold one rule at several dot positions, and the same
+    LR(0) core is reached along several paths with different lookahead sets — what LALR merging is about.
+    Terminal and nonterminal names are drawn at random so that every relative order of names occurs."""
+    pool = ["Aa", "Begin", "Cc", "Dd", "End", "Ff", "Kk", "Mm", "Num", "Op", "Pp", "Qq", "Xx", "Zz"]
+    rng.shuffle(pool)
+    ts = pool[:rng.randint(4, 8)]
+    e, top = rng.sample(["E", "Expr", "Apply", "Zexpr", "Program", "Top", "Aprog"], 2)
+    attrs = ["#[derive(Debug)]"] if derive else []
+
+    def fs(syms):
+        if not syms:
+            return {"kind": "empty"}
+        return {"kind": "tuple", "fields": [{"used": rng.random() < 0.8, "sym": x} for x in syms]}
+
+    E = sym_n(e)
+    evs, seen = [], set()
+    ops = list(ts)
+    rng.shuffle(ops)
+    cands = [[E, E, sym_t(ops[0])], [E, sym_t(ops[1])], [E, E, E, sym_t(ops[2])], [E, sym_t(ops[0]), E],
+             [sym_t(ops[1]), E, E], [E, E, sym_t(ops[2]), sym_t(ops[0])], [E, sym_t(ops[3 % len(ops)]), sym_t(ops[1])]]
+    rng.shuffle(cands)
+    for c in cands[:rng.randint(1, 3)]:
+        evs.append(c)
+    evs.append([sym_t(ops[-1])])                      # a base case
+    if rng.random() < 0.3:
+        evs.append([sym_t(ops[-2])])
+    variants = []
+    for j, c in enumerate(evs):
+        key = tuple(sym_key(x) for x in c)
+        if key not in seen:
+            seen.add(key)
+            variants.append({"name": f"V{j}", "fieldset": fs(c)})
+    brs = list(ts)
+    rng.shuffle(brs)
+    ctxs, seen = [], set()
+    shapes = [[E], [sym_t(brs[0]), E, sym_t(brs[1])], [sym_t(brs[2]), E, sym_t(brs[3 % len(brs)])], [E, sym_t(brs[1])],
+              [sym_t(brs[0]), E], [sym_t(brs[2]), E, E, sym_t(brs[0])]]
+    rng.shuffle(shapes)
+    for c in shapes[:rng.randint(2, 4)]:
+        key = tuple(sym_key(x) for x in c)
+        if key not in seen:
+            seen.add(key)
+            ctxs.append({"name": f"C{len(ctxs)}", "fieldset": fs(c)})
+    decls = [{"kind": "enum", "attrs": list(attrs), "name": top, "variants": ctxs},
+             {"kind": "enum", "attrs": list(attrs), "name": e, "variants": variants}]
+    if rng.random() < 0.5:
+        decls.reverse()
+    used = {x["sym"]["t"] for d in decls for v in d["variants"] if v["fieldset"]["kind"] != "empty" for x in v["fieldset"]["fields"] if "t" in x["sym"]}
+    items = [{"kind": "start", "name": top}] + decls
+    items.append({"kind": "terminal", "attrs": list(attrs), "name": "Tok", "variants": [{"name": t, "type": "usize"} for t in ts if t in used or rng.random() < 0.3]})
+    return items
+
+
 def wave_grammar(rng, derive=True):
     """A dependency chain A1 -> A2 -> .. -> Ak whose far end is `Ak { Nil | More(Aj $Y) }`: nullability
     has to travel the whole chain before Y can enter FIRST(Ak), and Y then has to travel the chain again.
